@@ -558,7 +558,7 @@ pub fn run(ctx: &Ctx) -> Report {
                 let seed = w["_seed"].as_u64().unwrap_or(ctx.seed);
                 for shard in 0..ctx.threads {
                     let mut r = Rng::derive(seed, 1919, shard as u64);
-                    for _ in 0..(ctx.budget(5_000, 400_000) / ctx.threads as u64) {
+                    for _ in 0..(ctx.budget(30_000, 1_000_000) / ctx.threads as u64) {
                         let s = rand_stmt(&mut r);
                         check_stmt(&mut rep, &s, &mut r);
                     }
@@ -574,8 +574,8 @@ pub fn run(ctx: &Ctx) -> Report {
         ["Or", "And", "Not", "Eq", "Lt", "BitOr", "BitXor", "BitAnd", "Shl", "Add", "Sub", "Mul", "Div", "Neg", "BitNot"].iter().map(|s| s.to_string()).collect();
     let chain_list = if ctx.quick() { chains(&level_reps) } else { chains(&ops) };
     let seed = ctx.seed;
-    let expr_budget = ctx.budget(50_000, 3_000_000);
-    let stmt_budget = ctx.budget(5_000, 400_000);
+    let expr_budget = ctx.budget(250_000, 6_000_000);
+    let stmt_budget = ctx.budget(30_000, 1_000_000);
     let pairs_ref = &pairs;
     let chain_ref = &chain_list;
     let mut rep = parallel(ctx.threads, |shard, n| {
